@@ -47,6 +47,18 @@ Theorem C20_b64_decode_invalid_is_err : forall a mode allow_trailing x l,
   exists e, b64_decode_bytes (alphabet_of a) mode allow_trailing l = DErr e.
 Proof. exact b64_invalid_gen. Qed.
 
+(* a text of length 1 mod 4 is never accepted *)
+Theorem C20_b64_decode_bad_length_is_err : forall al mode allow_trailing l,
+  (length l mod 4 = 1)%nat -> exists e, b64_decode_bytes al mode allow_trailing l = DErr e.
+Proof. exact b64_bad_length. Qed.
+
+(* the filter returns a string only when the decoded bytes are well-formed UTF-8 (otherwise an error) *)
+Theorem C20_b64_decode_ok_is_utf8 : forall u s t,
+  b64_decode_filter u s = ROk t ->
+  exists a mode tr bs, lookup_bool b64_decode_table u = Some (a, mode, tr) /\
+    b64_decode_bytes (alphabet_of a) mode tr (utf8_encode s) = DOk bs /\ utf8_decode bs = Some t.
+Proof. exact b64_decode_ok_utf8. Qed.
+
 (* ---- urlencode / urlencode_strict ---- *)
 
 (* percent-decoding the output gives back the UTF-8 bytes of s, which decode to s *)
@@ -86,6 +98,21 @@ Theorem C20_json_roundtrip : forall ft p v,
   exists text, json_encode_filter ft p v = ROk text /\ json_read text = Some (canon ft v).
 Proof. exact json_filter_roundtrip. Qed.
 
+(* objects as data: looking a member up by the key's text finds exactly that entry's value, provided
+   the keys of the map stay pairwise distinct once written as member names ... *)
+Theorem C20_json_object_faithful : forall ft m,
+  NoDup (member_names m) ->
+  forall k x, In (k, x) m ->
+  exists ms, canon ft (VMap m) = JObj ms /\ In (key_text k, canon ft x) ms /\
+             forall j, In (key_text k, j) ms -> j = canon ft x.
+Proof. exact json_object_faithful. Qed.
+
+(* ... which distinct tera keys need not do: 1 and "1" (known finding
+   json:map-keys-collide-after-stringify; the harness reproduces it on the real filter) *)
+Theorem C20_json_distinct_keys_refuted :
+  exists m : list (key * value), NoDup (map fst m) /\ ~ NoDup (member_names m).
+Proof. exact json_key_collision_refuted. Qed.
+
 (* ---- slug ---- *)
 
 (* for ANY transliteration oracle (ASCII or not): only [a-z0-9-], no leading, trailing or doubled hyphen *)
@@ -104,6 +131,8 @@ Print Assumptions C20_b64_alphabet.
 Print Assumptions C20_pct_roundtrip.
 Print Assumptions C20_json_roundtrip.
 Print Assumptions C20_slug_alphabet.
+Print Assumptions C20_json_object_faithful.
+Print Assumptions C20_b64_decode_invalid_is_err.
 
 (* non-vacuity *)
 Example C20_ex_b64 :
